@@ -197,7 +197,9 @@ class TemplateError(Exception):
                 )
             elif self.filename and not self.filename.startswith('<'):
                 try:
-                    f = open(self.filename)
+                    # (the file may be in any encoding: the excerpt is a
+                    # convenience, it must not make the message fail)
+                    f = open(self.filename, errors='replace')
                 except OSError:
                     pass
                 else:
@@ -331,7 +333,7 @@ class ExceptionFormatter:
 
             if filename and not filename.startswith('<') and line and column:
                 try:
-                    f = open(filename)
+                    f = open(filename, errors='replace')
                 except OSError:
                     pass
                 else:
